@@ -52,6 +52,8 @@ pub struct UnixTerminal {
     // if it is not None we are going to use escape sequence to detect
     // terminal size, otherwise ioctl is used.
     size: Option<TerminalSize>,
+    /// Number of size requests sent with escape sequence which are not yet answered
+    size_requests: usize,
     poll: Poll,
 }
 
@@ -145,6 +147,7 @@ impl UnixTerminal {
             image_handler: Box::new(DummyImageHandler),
             capabilities,
             size: None,
+            size_requests: 0,
             poll,
         };
 
@@ -479,6 +482,7 @@ impl Terminal for UnixTerminal {
                                     .push_back(TerminalEvent::Resize(self.size()?));
                             } else {
                                 self.write_all(GET_TERM_SIZE)?;
+                                self.size_requests += 1;
                             }
                         }
                         SIGTERM | SIGINT | SIGQUIT => {
@@ -522,6 +526,7 @@ impl Terminal for UnixTerminal {
                             // responses to the two size requests may arrive separately
                             if !size.cells.is_empty() {
                                 term_size.cells = size.cells;
+                                self.size_requests = self.size_requests.saturating_sub(1);
                             }
                             if !size.pixels.is_empty() {
                                 term_size.pixels = size.pixels;
@@ -595,7 +600,13 @@ impl Terminal for UnixTerminal {
     }
 
     fn frames_drop(&mut self) {
-        self.write_queue.clear_but_last()
+        let dropped = self.write_queue.chunks_count() > 1;
+        self.write_queue.clear_but_last();
+        // unanswered size request might have been in one of the dropped frames,
+        // without it resize would never be reported, so it is requested again
+        if dropped && self.size_requests > 0 {
+            self.write_queue.write_all(GET_TERM_SIZE).unwrap_or(());
+        }
     }
 
     fn dyn_ref(&mut self) -> &mut dyn Terminal {
